@@ -39,7 +39,7 @@ def one_case(rng, tier, wrapped=False):
 
 
 def generate(rng, tier):
-    n = 1500 if tier == "quick" else 30000
+    n = 4000 if tier == "quick" else 40000
     cases = []
     nw = 0
     for i in range(n):
